@@ -129,6 +129,15 @@ def compare_tests(bi):
                 t = next(iter(ts))
                 if t[0] == "binop" and t[1] in CMP_BIN:
                     out.append((e, CMP_BIN[t[1]], t[2], t[3]))
+    # unsigned counters: `x < 1`, `x <= 0` say `x == 0`; `x >= 1`, `x > 0` say `x != 0`
+    extra = []
+    for e, o, x, y in out:
+        for (xx, yy, oo) in ((x, y, o), (y, x, SWAP[o])):
+            if yy == ("const", 1) and oo == "Lt" or yy == ("const", 0) and oo == "Le":
+                extra.append((e, "Eq", xx, ("const", 0)))
+            elif yy == ("const", 1) and oo == "Ge" or yy == ("const", 0) and oo == "Gt":
+                extra.append((e, "Ne", xx, ("const", 0)))
+    out += extra
     bi._compare_tests = out
     return out
 
